@@ -318,6 +318,81 @@ def graph_inputs(cap, utf8, all_bytes=False, max_states=400):
     return sorted(inputs), dict(states=len(states), pairs=pairs)
 
 
+_DICT = None
+
+
+def source_dictionary():
+    """byte strings that occur as literals in the runtime's and the generator's sources *as they are now* (string, byte-string,
+    char and byte literals, arrays of small numbers, hex constants): a special case keyed on a magic value in the input
+    (a byte order mark, a shebang, a particular byte) can only be exercised by inputs that contain the value, and the
+    value has to be written somewhere in the code"""
+    global _DICT
+    if _DICT is not None:
+        return _DICT
+    import glob, re
+    from textpipe import parse_lit
+    toks = set()
+    files = glob.glob('/repo/src/*.rs') + glob.glob('/repo/logos-codegen/src/generator/*.rs')
+    for f in sorted(files):
+        if 'verif' in os.path.basename(f):
+            continue
+        code = '\n'.join(l for l in open(f).read().split('\n') if not l.strip().startswith('//'))
+        for m in re.finditer(r'b?"', code):
+            lit = parse_lit(code, m.start())
+            if lit is not None and 0 < len(lit[1]) <= 8:
+                toks.add(lit[1])
+        for m in re.finditer(r"b?'(?:\\u\{([0-9a-fA-F]{1,6})\}|\\x([0-9a-fA-F]{2})|\\(.)|([^'\\\n]))'", code):
+            if m.group(1):
+                try:
+                    toks.add(chr(int(m.group(1), 16)).encode('utf-8'))
+                except (ValueError, UnicodeEncodeError):
+                    pass
+            elif m.group(2):
+                toks.add(bytes([int(m.group(2), 16)]))
+            elif m.group(3):
+                toks.add({'n': b'\n', 't': b'\t', 'r': b'\r', '0': b'\0'}.get(m.group(3), m.group(3).encode()))
+            else:
+                toks.add(m.group(4).encode('utf-8'))
+        num = r'(?:0x[0-9a-fA-F]{1,2}|0b[01_]{1,9}|\d{1,3})(?:_?u8)?'
+        for m in re.finditer(r'\[\s*((?:%s\s*,\s*)+%s)\s*,?\s*\]' % (num, num), code):
+            vals = []
+            for x in m.group(1).split(','):
+                x = x.strip().replace('_u8', '').replace('u8', '').replace('_', '')
+                v = int(x, 16) if x.startswith('0x') else int(x[2:], 2) if x.startswith('0b') else int(x)
+                vals.append(v)
+            if vals and all(v < 256 for v in vals) and len(vals) <= 8:
+                toks.add(bytes(vals))
+        for m in re.finditer(r'\b0x([0-9a-fA-F_]{2,16})\b', code):
+            hx = m.group(1).replace('_', '')
+            if len(hx) % 2 == 0 and len(hx) <= 16:
+                b = bytes.fromhex(hx)
+                toks.add(b)
+                toks.add(b[::-1])
+        for m in re.finditer(r'\b0b([01_]{8,9})\b', code):
+            v = int(m.group(1).replace('_', ''), 2)
+            if v < 256:
+                toks.add(bytes([v]))
+    # single printable ASCII bytes are in every alphabet and probe set already
+    toks = {t for t in toks if len(t) >= 2 or t[0] >= 0x7f or t[0] < 0x20}
+    _DICT = sorted(toks, key=lambda b: (len(b), b))[:40]
+    return _DICT
+
+
+def dictionary_inputs(R, d, base):
+    """inputs carrying a dictionary entry at the start, in the middle and at the end of text the definition knows"""
+    out = []
+    base = [b for b in base if b][:3] or [b'a']
+    for tok in source_dictionary():
+        if d.utf8 and not is_valid_utf8(list(tok)):
+            continue
+        sample = R.choice(base)
+        out.append(tok)
+        out.append(tok + sample)
+        out.append(sample + tok)
+        out.append(sample + b' ' + tok + b' ' + sample)
+    return out
+
+
 def random_inputs(R, d, n):
     """strings over the definition's alphabet, samples from its patterns, lengths around 8/16"""
     alpha = d.alphabet() + ['a', 'b', ' ', 'é', '中', '😀', '0']
@@ -363,6 +438,7 @@ def random_inputs(R, d, n):
                     out.append((sib + tail).encode('utf-8'))
                     out.append(('a' + sib + tail).encode('utf-8'))
                 break
+    out += dictionary_inputs(R, d, out)
     return out
 
 
